@@ -453,3 +453,104 @@ class Nullness:
                         if val == 'none' and pol:
                             return 'infeasible'
         return st
+
+
+def _timer_started(e, func_node, name, ctx):
+    """the local `name` is bound (only) to a started gevent Timeout:
+    Timeout.start_new(x) with x not the constant None.  Returns the text of
+    x or None."""
+    import ast as _ast
+    from ..model import walk_own
+    defs = [n for n in walk_own(func_node) if isinstance(n, _ast.Assign) and
+            any(isinstance(t, _ast.Name) and t.id == name
+                for t in n.targets)]
+    if len(defs) != 1:
+        return None
+    v = defs[0].value
+    if isinstance(v, _ast.Call) and isinstance(v.func, _ast.Attribute) and \
+            v.func.attr == 'start_new' and v.args:
+        q = e.p.resolve_expr_qname(ctx.func.module, v.func.value)
+        a0 = v.args[0]
+        if q in TIMEOUT_QNAMES and not (isinstance(a0, _ast.Constant) and
+                                        a0.value is None):
+            return _ast.unparse(a0)
+    return None
+
+
+def _timeout_decorator(e, func):
+    """the function is wrapped by a decorator of the shape
+        def deco(fn):
+            def wrapper(...):
+                with Timeout(x): return fn(...)
+            return wrapper
+    Returns the text of x or None."""
+    import ast as _ast
+    for d in getattr(func.node, 'decorator_list', []):
+        name = d.id if isinstance(d, _ast.Name) else None
+        if name is None:
+            continue
+        deco = func.module.functions.get(name) if hasattr(
+            func.module, 'functions') else None
+        if deco is None:
+            continue
+        dn = deco.node if hasattr(deco, 'node') else deco
+        if not dn.args.args:
+            continue
+        fnp = dn.args.args[0].arg
+        for w in _ast.walk(dn):
+            if isinstance(w, _ast.With):
+                for it in w.items:
+                    ce = it.context_expr
+                    if isinstance(ce, _ast.Call) and _ast.unparse(
+                            ce.func).endswith('Timeout') and (
+                                ce.args or ce.keywords) and any(
+                            isinstance(c, _ast.Call) and
+                            isinstance(c.func, _ast.Name) and
+                            c.func.id == fnp for s2 in w.body
+                            for c in _ast.walk(s2)):
+                        a0 = ce.args[0] if ce.args else ce.keywords[0].value
+                        if not (isinstance(a0, _ast.Constant) and
+                                a0.value is None):
+                            return _ast.unparse(a0)
+    return None
+
+
+def covering_timeout(e, n):
+    """Description of the timeout that bounds CFG node n, or None.  Idioms:
+    `with Timeout(x)`; `t = Timeout.start_new(x); try: ... finally:
+    t.cancel()`; `with_timeout(x, fn, ...)`; a decorator that runs the
+    function under `with Timeout(x)`."""
+    import ast as _ast
+    for sc in n.scopes:
+        if timeout_scope(e, sc):
+            return 'with Timeout(%s) in %s' % (timeout_arg_text(sc),
+                                              sc.frame.ctx.func.name)
+    for sc in n.scopes:
+        if sc.kind == 'finally' and isinstance(sc.ast, _ast.Try) and \
+                not any(s2.kind == 'finally_body' and s2.ast is sc.ast
+                        for s2 in n.scopes):
+            for st in sc.ast.finalbody:
+                for c in _ast.walk(st):
+                    if isinstance(c, _ast.Call) and \
+                            isinstance(c.func, _ast.Attribute) and \
+                            c.func.attr in ('cancel', 'close') and \
+                            isinstance(c.func.value, _ast.Name):
+                        x = _timer_started(e, sc.frame.ctx.func.node,
+                                           c.func.value.id, sc.frame.ctx)
+                        if x:
+                            return 'Timeout.start_new(%s) ... finally ' \
+                                '%s() in %s' % (x, c.func.attr,
+                                                sc.frame.ctx.func.name)
+    for fr in n.frame.chain():
+        via = getattr(fr.call, '_via_with_timeout', None)
+        if via is not None and via.args:
+            a0 = via.args[0]
+            if not (isinstance(a0, _ast.Constant) and a0.value is None):
+                return 'with_timeout(%s, ...) in %s' % (
+                    _ast.unparse(a0), fr.parent.ctx.func.name
+                    if fr.parent else '?')
+        x = _timeout_decorator(e, fr.ctx.func)
+        if x:
+            return 'decorator running %s under Timeout(%s)' % (
+                fr.ctx.func.name, x)
+    return None
